@@ -115,7 +115,7 @@ void World::close_fd(int fd) {
       p.at = now; p.seq = seq++; p.kind = 3; p.fd = v->pair->fd;
       queue.insert(p);
     }
-    if (v->speer) { v->speer->peer_closed = true; v->speer->conn = nullptr; if (v->speer->on_rx) { StreamPeer *sp = v->speer; at(now, [this, sp]() { if (sp->on_rx) sp->on_rx(*this, *sp); }); } }
+    if (v->speer) { v->speer->peer_closed = true; v->speer->conn = nullptr; if (v->speer->on_rx) { StreamPeer *sp = v->speer; at_world(now, [this, sp]() { if (sp->on_rx) sp->on_rx(*this, *sp); }); } }
   }
   if (v->kind == VSock::TCP_LISTEN) {
     for (auto &pc : v->pending) { if (pc.second) pc.second->peer_closed = true; }
@@ -162,6 +162,16 @@ void World::at(uint64_t t, std::function<void()> fn) {
   p.at = t < now ? now : t;
   p.seq = seq++;
   p.kind = 1;
+  p.fn = fn;
+  queue.insert(p);
+}
+// an action of the world itself (scripted peers, stream chunks) as opposed to one of the application under test: it also runs while the
+// application is blocked inside a libcoap call (nested_wait)
+void World::at_world(uint64_t t, std::function<void()> fn) {
+  Pending p;
+  p.at = t < now ? now : t;
+  p.seq = seq++;
+  p.kind = 4;
   p.fn = fn;
   queue.insert(p);
 }
@@ -283,7 +293,7 @@ void World::stream_send(StreamPeer *sp, const std::vector<uint8_t> &data, const 
     p.fd = -2;
     // deliver through an action so that a connection accepted later is still found
     std::vector<uint8_t> b = p.bytes;
-    at(t, [this, spp, b]() {
+    at_world(t, [this, spp, b]() {
       if (!spp->conn) return;
       VSock *v = spp->conn;
       v->rbytes.insert(v->rbytes.end(), b.begin(), b.end());
@@ -299,7 +309,7 @@ void World::stream_send(StreamPeer *sp, const std::vector<uint8_t> &data, const 
 }
 
 void World::stream_close(StreamPeer *sp, uint32_t delay) {
-  at(now + delay, [this, sp]() {
+  at_world(now + delay, [this, sp]() {
     if (!sp->conn) return;
     sp->conn->eof = true;
     activity = true;
@@ -340,22 +350,28 @@ void World::nested_wait(int epfd, uint32_t timeout_ms) {
       if ((v->ep_events & EPOLLIN) && (!v->rxq.empty() || !v->rbytes.empty() || v->eof || !v->pending.empty())) readable = true;
     }
     if (readable) break;
-    uint64_t next = queue.empty() ? UINT64_MAX : queue.begin()->at;
+    // the application is blocked in a libcoap call: its own scheduled actions (kind 1) stay queued until that call returns
+    uint64_t next = UINT64_MAX;
+    for (auto &q : queue) if (q.kind != 1) { next = q.at; break; }
     for (coap_context_t *c : contexts) {
       if (c->epfd == epfd) continue;
       unsigned wt = coap_io_prepare_epoll(c, (coap_tick_t)now);
       if (wt) next = std::min<uint64_t>(next, now + wt);
     }
-    if (!queue.empty() && queue.begin()->at <= now) next = now;
     if (next > deadline) { now = deadline; break; }
     if (next > now) now = next;
-    while (!queue.empty() && queue.begin()->at <= now) {
-      Pending p = *queue.begin();
-      queue.erase(queue.begin());
-      if (p.kind == 0) route(p.d);
-      else if (p.kind == 1) { if (p.fn) p.fn(); }
-      else if (p.kind == 3) { VSock *v = by_fd(p.fd); if (v) { v->eof = true; activity = true; } }
-      else if (p.kind == 2) { VSock *v = by_fd(p.fd); if (v) { v->rbytes.insert(v->rbytes.end(), p.bytes.begin(), p.bytes.end()); activity = true; } }
+    for (bool again = true; again;) {
+      again = false;
+      for (auto qi = queue.begin(); qi != queue.end() && qi->at <= now; ++qi) {
+        if (qi->kind == 1) continue;
+        Pending p = *qi;
+        queue.erase(qi);
+        if (p.kind == 0) route(p.d);
+        else if (p.kind == 4) { if (p.fn) p.fn(); }
+        else if (p.kind == 3) { VSock *v = by_fd(p.fd); if (v) { v->eof = true; activity = true; } }
+        again = true;
+        break;
+      }
     }
     std::vector<coap_context_t *> cs = contexts;
     for (coap_context_t *c : cs) {
@@ -376,7 +392,7 @@ bool World::run(uint64_t until, unsigned max_steps) {
       Pending p = *queue.begin();
       queue.erase(queue.begin());
       if (p.kind == 0) route(p.d);
-      else if (p.kind == 1) { if (p.fn) p.fn(); }
+      else if (p.kind == 1 || p.kind == 4) { if (p.fn) p.fn(); }
       else if (p.kind == 3) { VSock *v = by_fd(p.fd); if (v) { v->eof = true; activity = true; } }
       service_contexts();
       if (idle_hook) idle_hook();
@@ -605,7 +621,7 @@ int __wrap_coap_socket_connect_tcp1(coap_socket_t *sock, const coap_address_t *l
   if (sp) {
     v->speer = sp;
     sp->conn = v;
-    if (sp->on_connect) { StreamPeer *spp = sp; W->at(W->now, [spp]() { if (spp->on_connect) spp->on_connect(*W, *spp); }); }
+    if (sp->on_connect) { StreamPeer *spp = sp; W->at_world(W->now, [spp]() { if (spp->on_connect) spp->on_connect(*W, *spp); }); }
   } else {
     lst->pending.push_back({v, nullptr});
   }
@@ -647,7 +663,7 @@ int __wrap_coap_socket_accept_tcp(coap_socket_t *server, coap_socket_t *new_clie
     v->remote = pc.second->addr;
     v->speer = pc.second;
     pc.second->conn = v;
-    if (pc.second->on_connect) { StreamPeer *spp = pc.second; W->at(W->now, [spp]() { if (spp->on_connect) spp->on_connect(*W, *spp); }); }
+    if (pc.second->on_connect) { StreamPeer *spp = pc.second; W->at_world(W->now, [spp]() { if (spp->on_connect) spp->on_connect(*W, *spp); }); }
   }
   new_client->fd = v->fd;
   v->local.to_coap(local_addr);
@@ -700,7 +716,7 @@ ssize_t __wrap_send(int fd, const void *buf, size_t len, int flags) {
   if (v->pair) v->pair->rbytes.insert(v->pair->rbytes.end(), b, b + n);
   else {
     v->speer->rx.insert(v->speer->rx.end(), b, b + n);
-    if (v->speer->on_rx) { StreamPeer *sp = v->speer; W->at(W->now, [sp]() { if (sp->on_rx) sp->on_rx(*W, *sp); }); }
+    if (v->speer->on_rx) { StreamPeer *sp = v->speer; W->at_world(W->now, [sp]() { if (sp->on_rx) sp->on_rx(*W, *sp); }); }
   }
   W->activity = true;
   return (ssize_t)n;
